@@ -105,6 +105,8 @@ def guarded_returns(fn_node, max_paths=64):
                 return
             if isinstance(st, ast.Assert):
                 continue
+            if isinstance(st, ast.Raise):
+                return              # a path that raises returns nothing: it contributes no pair
             raise Refuse()
         out.append((conds, None, None))
         if len(out) > max_paths:
